@@ -172,6 +172,22 @@ func genC03(g *Gen) error {
 	}
 	g.P("def levelMinGroupFiles : String := %s", leanStr(v))
 
+	// ---- the full-compaction group builder (model: OG.C03.FullPlan)
+	for _, f := range []struct{ rel, fn, lean string }{
+		{dir + "tssp_reader.go", "TSSPFiles.fullCompacted", "src_fullCompacted"},
+		{dir + "task.go", "CompactGroupBuilder.add", "src_groupBuilderAdd"},
+		{dir + "task.go", "CompactGroupBuilder.addLowLevelMode", "src_groupBuilderAddLowLevelMode"},
+		{dir + "task.go", "CompactGroupBuilder.SwitchGroup", "src_groupBuilderSwitchGroup"},
+		{dir + "compact.go", "MmsTables.buildFullCompactPlan", "src_buildFullCompactPlan"},
+		{dir + "compact.go", "MmsTables.FullCompact", "src_FullCompact"},
+	} {
+		fd, err := g.Func(f.rel, f.fn)
+		if err != nil {
+			return err
+		}
+		g.P("def %s : String := %s", f.lean, leanStr(c03NoLog(g, fd.Body)))
+	}
+
 	// ---- column-store compaction: who publishes the new files, and when (model: OG.C03.ColStore)
 	g.P("")
 	renames := []string{"RenameTmpFiles", "RenameTmpFilesWithPKIndex"}
